@@ -112,6 +112,7 @@ func init() {
 			{"loop-accumulator", "a boolean that summarises a loop (some element needs X / all elements satisfy Y) and is read after it is accumulated monotonically - set to a constant, combined with its previous value, assigned under a test of itself, or followed by leaving the loop - never overwritten by the value computed for the current element only", func(c *Ctx) { ruleLoopAccumulator(c, "pkg/core/statesync", "pkg/network/bqueue") }},
 			{"dead-update", "no struct-typed local is assigned and field-updated without ever being read, passed on or returned (a modified copy that is lost while the stale original goes on being used)", func(c *Ctx) { ruleDeadUpdate(c, "pkg/core/statesync", "pkg/network/bqueue") }},
 			{"check-all-loop", "a loop that rejects on a property of each element with an error return is not left early with a break (the elements after it would escape the check)", func(c *Ctx) { ruleCheckAllLoop(c, "pkg/core/statesync", "pkg/network/bqueue") }},
+			{"multimap-merge", "a multimap (map with slice values) that outlives the merge is merged into by appending to the list stored under a key, never by maps.Copy or a plain keyed store (only the last contribution for a key would survive)", func(c *Ctx) { ruleMultimapMerge(c, "pkg/core/statesync", "pkg/network/bqueue", "pkg/core/mpt") }},
 			{"lock-pairing", "in pkg/network/bqueue and pkg/core/statesync every mutex acquired is released on every exit (defer-aware, boolean-correlated; the hand-unlocked Blocking branch of Queue.Put included)", func(c *Ctx) { lockPairingPkgs(c, []string{"pkg/network/bqueue", "pkg/core/statesync"}, nil, 10) }},
 			{"lockset", "the block queue's ring/len/lastQ and the state-sync module's stage, sync point, heights, tries and node pool are read and written only while the owning mutex is held (write lock for writes), in methods every call site of which holds it, or in the tabled traversal callback", ruleLocksetSync},
 			{"stage-machine", "the state jump that ends a state synchronisation is a well-formed stage machine: markers name the next clause and are persisted with the stage, and everything the jump writes to the store is in or before the batch that removes the marker (a restart at any point resumes or finds the jump complete)", ruleStageMachine},
@@ -339,6 +340,7 @@ func init() {
 			{"codec-guards", "where the encoder and the decoder of one consensus message both guard wire operations by comparing the same field with constants (the change-view reason), the two sets of constants agree", ruleCodecGuards},
 			{"decode-context", "a decoder of a consensus message whose wire shape depends on the state-root flag hands the flag on to every nested context-dependent value it creates", ruleDecodeContext},
 			{"context-construction", "every place of the node that builds a value whose wire shape depends on a context field (block.Header.StateRootEnabled, the consensus state-root flags) sets that field, in the literal or by an assignment in the same function (one tabled exception)", ruleContextConstruction},
+			{"threshold-family", "no multisignature script with the committee (majority) threshold is built over a validator list: NextConsensus and block witnesses use the BFT threshold, and the two formulas agree only for 1, 2 and 4 keys", ruleThresholdFamily},
 			{"proposal-dominators", "verifyBlock accepts only behind the height/timestamp/size/system-fee checks and per-transaction verification; verifyRequest only behind prev-hash/version/state-root/count checks; the block witness takes commits of the current view only, in validator order; the proposed transaction set is cut after (not before) adding the transaction that overflows a limit", ruleProposalDominators},
 			{"loop-confinement", "dBFT state and the service's loop-owned fields are not touched by anything reachable from the methods other goroutines call (OnPayload, OnTransaction, Shutdown, Name)", ruleLoopConfinement},
 		},
